@@ -107,3 +107,97 @@ func ruleC19Unwrap(p *Prog, a *Anchors, r *Report) {
 		r.Trivial("none", "-", "no function outside %s's methods reads its inner evaluator", node.Obj().Name())
 	}
 }
+
+// R-C19-ENDARGS: "a tag or filter name that is not registered never renders silently" (and C06: text after a tag is
+// copied). The parser helpers that look for an end tag consume what stands between the end tag's name and its `%}`.
+// Those tokens are either kept — appended to the argument list the helper hands back, so that the tag's parser
+// refuses or parses them — or the helper refuses them itself. A loop that consumes them unseen lets
+// `{% endcomment x|nosuchfilter %}` compile, and with a tag left at the wrong closer (`{% endcomment }}`) it eats
+// text, variables and whole tags up to the next `%}`.
+func ruleC19EndArgs(p *Prog, a *Anchors, r *Report) {
+	r.Begin("R-C19-ENDARGS", "a parser loop that consumes tokens up to a tag's `%}` keeps every token it consumes (appends it to the arguments it returns): no token of a tag is dropped unseen", 2)
+	consume := map[*ssa.Function]bool{}
+	for _, n := range []string{"Consume", "ConsumeN"} {
+		if f := p.Method("Parser", n); f != nil {
+			consume[f] = true
+		}
+	}
+	if len(consume) == 0 {
+		r.Unk("anchor", "-", "anchor unresolved: (*Parser).Consume")
+		return
+	}
+	closesTag := func(in ssa.Instruction) bool {
+		c, ok := in.(*ssa.Call)
+		if !ok || c.Common().StaticCallee() == nil || !p.InPkg(c.Common().StaticCallee()) {
+			return false
+		}
+		for _, arg := range c.Common().Args {
+			if s, isC := constString(arg); isC && s == "%}" {
+				return true
+			}
+		}
+		return false
+	}
+	n := 0
+	for _, f := range p.inPkgFuncsSorted(p.allFuncSet()) {
+		if f.Signature.Recv() == nil || structOf(f.Signature.Recv().Type()) == nil || structOf(f.Signature.Recv().Type()).Obj().Name() != "Parser" {
+			continue
+		}
+		k := 0
+		for _, b := range f.Blocks {
+			for _, in := range b.Instrs {
+				c, ok := in.(*ssa.Call)
+				if !ok || !consume[c.Common().StaticCallee()] {
+					continue
+				}
+				hdr := innermostLoopHeader(b)
+				if hdr == nil {
+					continue
+				}
+				// the loop's blocks
+				var loop []*ssa.BasicBlock
+				for _, lb := range f.Blocks {
+					if hdr.Dominates(lb) && ReachableBlocks(lb)[hdr] {
+						loop = append(loop, lb)
+					}
+				}
+				closes, keeps := false, false
+				for _, lb := range loop {
+					for _, li := range lb.Instrs {
+						if closesTag(li) {
+							closes = true
+						}
+						if ci, ok := li.(ssa.CallInstruction); ok {
+							if bi, ok := ci.Common().Value.(*ssa.Builtin); ok && bi.Name() == "append" {
+								if sl, ok := ci.Common().Args[0].Type().Underlying().(*types.Slice); ok {
+									if pt, ok := sl.Elem().(*types.Pointer); ok {
+										if tn, ok := pt.Elem().(*types.Named); ok && tn.Obj().Name() == "Token" {
+											keeps = true
+										}
+									}
+								}
+							}
+						}
+					}
+				}
+				if !closes {
+					continue // not a loop over the tokens of one tag
+				}
+				k++
+				n++
+				key := p.FuncName(f) + ":consumes-to-tag-end"
+				if k > 1 {
+					key += "#" + itoa(int64(k))
+				}
+				if keeps {
+					r.OK(key, p.InstrPos(in), "the tokens consumed up to `%%}` are appended to the arguments handed back")
+				} else {
+					r.Bad(key, p.InstrPos(in), "%s consumes the tokens between a tag's name and its `%%}` without keeping or refusing them: an unregistered filter or any other text in an end tag compiles silently ({%% endcomment x|nosuchfilter %%}), and a tag left at the wrong closer ({%% endcomment }}) swallows the text and tags that follow up to the next `%%}`", p.FuncName(f))
+				}
+			}
+		}
+	}
+	if n == 0 {
+		r.Unk("none", "-", "no parser loop consuming the tokens of a tag found")
+	}
+}
